@@ -55,9 +55,11 @@ func alphabet(keys []string, thorough bool) []kvh.Op {
 		kvh.Op{Kind: "getmany", Keys: []string{a, a}},
 		kvh.Op{Kind: "getmany", Keys: []string{"zz", a}},
 		kvh.Op{Kind: "getmany", Keys: []string{last, a, "zz"}},
+		kvh.Op{Kind: "getmany", Keys: longKeyList(a, b, last)},
 	)
 	// {a,b} and [!a] are gobwas/glob syntax (the documented one) that the Redis MATCH dialect does not share
-	pats := []string{"*", "a*", "?", "[ab]", "b", "zz*", "/*", "{a,b}", "[!a]"}
+	// "[a" is not a valid pattern: refused, every time
+	pats := []string{"*", "a*", "?", "[ab]", "b", "zz*", "/*", "{a,b}", "[!a]", "[a"}
 	if thorough {
 		pats = append(pats, "??", "[^a]", "{a,/c}")
 	}
@@ -65,6 +67,15 @@ func alphabet(keys []string, thorough bool) []kvh.Op {
 		ops = append(ops, kvh.Op{Kind: "list", Pat: p})
 	}
 	return ops
+}
+
+// longKeyList: 70 keys (more than any batch size one might pick), different keys on both sides of position 64
+func longKeyList(a, b, c string) []string {
+	var ks []string
+	for i := 0; i < 64; i++ {
+		ks = append(ks, a)
+	}
+	return append(ks, b, c, a, "zz", b, c)
 }
 
 var (
@@ -128,7 +139,9 @@ func main() {
 						}
 					}
 				}
-				return m.CanonKey(ds[0], keys), al, nil
+				// the key is the model state plus the complete state of the in-memory implementation (hidden caches,
+				// flags, counters a change might add would otherwise be merged away)
+				return m.CanonKey(ds[0], keys) + " | " + ds[0].ImplDump(), al, nil
 			},
 		}
 		return bfs.Explore(sp)
